@@ -162,7 +162,8 @@ inductive Guard
   | activeClient       -- clients.FindActiveClientInfo{ProjectID, client_id}
   | activeAttacher     -- the same call in AttachDocument (fixture: the unattached client)
   | docByRef           -- documents.FindDocInfoByRefKey{ProjectID, document_id}
-  | attachedTo         -- clientInfo.EnsureDocumentAttached(document_id)
+  | attachedTo         -- clientInfo.EnsureDocumentAttached / …AttachedOrAttaching(document_id): the id is looked up
+                       -- in the *client's* attachment table (fixture: attached, never merely attaching)
   | docByKey           -- documents.FindDocInfoByKey(project, key)
   | docKeyFree         -- documents.CreateDocument: key must not exist
   | schemaByName       -- schemas.GetSchema(s) / RemoveSchema (project.ID, name)
@@ -375,8 +376,9 @@ def yorkieHandlers : List (String × Handler) := [
   ("DeactivateClient",      ⟨.apiKey, [verifyAccess, activeClient], deactivate⟩),
   ("DeactivateClient+async",⟨.apiKey, [verifyAccess], deactivateAsync⟩),
   ("AttachDocument",        ⟨.apiKey, [verifyAccess, activeAttacher], attach⟩),
-  ("DetachDocument",        ⟨.apiKey, [verifyAccess, activeClient, docByRef], detach⟩),
-  ("RemoveDocument",        ⟨.apiKey, [verifyAccess, activeClient, docByRef], removeDoc⟩),
+  -- since /repo 7f055575 the attachment is checked before the document lookup and PushPull
+  ("DetachDocument",        ⟨.apiKey, [verifyAccess, activeClient, attachedTo, docByRef], detach⟩),
+  ("RemoveDocument",        ⟨.apiKey, [verifyAccess, activeClient, attachedTo, docByRef], removeDoc⟩),
   ("PushPullChanges",       ⟨.apiKey, [verifyAccess, activeClient, attachedTo, docByRef], write⟩),
   ("Watch",                 ⟨.apiKey, [activeClient, verifyAccess, docByRef], .noop⟩),
   ("WatchDocument",         ⟨.apiKey, [activeClient, verifyAccess, docByRef], .noop⟩),
